@@ -25,6 +25,23 @@ LSP_HASH_TABLE = {
 }
 
 
+def _places(x):
+    out = []
+
+    def rec(n):
+        if isinstance(n, dict):
+            if "l" in n and "p" in n and isinstance(n.get("l"), int):
+                out.append(n)
+                return
+            for v in n.values():
+                rec(v)
+        elif isinstance(n, list):
+            for v in n:
+                rec(v)
+    rec(x)
+    return out
+
+
 def r141(ctx, fx, cg):
     rid = ctx.rule("R14.1", "perform_codegen assigns tree, codegen and error (reset) in blocks that dominate every return — no early return can leave results of an "
                    "older buffer state behind; every NotificationHandler::handle that (transitively) calls LspParsingSource::insert/remove also reaches "
@@ -71,6 +88,24 @@ def r141(ctx, fx, cg):
             ctx.finding(rid, k, "%s changes the set of buffers (%s) but does not %s: diagnostics and answers keep reflecting the old buffer contents" % (
                 (f.d.get("impl_self") or f.path).rsplit("::", 1)[-1], mut[0].rsplit("::", 1)[-1],
                 " / ".join(x for x, h in (("re-run perform_codegen", has_pc), ("republish diagnostics", has_pub)) if not h)), f.where)
+        elif mut:
+            # not only "reaches" but "on every path": no return of the handler (or of a helper it delegates to) skips the store, the analysis or the publication
+            for what, pred in (("store the client's text (LspParsingSource::insert/remove)", lambda p: lib.pm(p, "LspParsingSource::insert") or lib.pm(p, "LspParsingSource::remove")),
+                               ("re-run perform_codegen", lambda p: lib.pm(p, "LspContext::perform_codegen")),
+                               ("republish diagnostics", lambda p: lib.pm(p, "documents::publish_diagnostics"))):
+                mc = lib.MustCall(fx, pred)
+                k2 = "%s|every-path|%s" % (f.path, what.split(" (")[0].replace(" ", "-"))
+                # the obligation starts where the handler reads a text the client sent (a didChange without content changes carries none); a handler
+                # that receives no text (didClose) is obliged from its entry
+                starts = sorted({bi for bi, b in enumerate(f.blocks) if not b["cleanup"] and any(
+                    isinstance(e, dict) and e.get("n") == "text" and str(e.get("of", "")).startswith("lsp_types::")
+                    for st in b["stmts"] + [b["term"]] for pl in _places(st) for e in (pl.get("p") or []))}) or [0]
+                esc = mc.escaping(f, starts=starts)
+                ctx.inst(rid, k2, sample={"handler": f.d.get("impl_self"), "obligation": what, "returns_examined": len(lib.return_blocks(f)),
+                                          "obliged_from": "entry" if starts == [0] else "the blocks that read the client's text"})
+                if esc:
+                    ctx.finding(rid, k2, "%s can return without having done this: %s — on that path the server keeps answering from an older buffer state "
+                                "(a fresh server given the final buffers would answer differently)" % ((f.d.get("impl_self") or f.path).rsplit("::", 1)[-1], what), f.where)
     if n < 3:
         ctx.fail_closed(rid, "fewer than 3 notification handlers found (%d)" % n)
 
@@ -273,10 +308,38 @@ def r145(ctx, fx):
         ctx.finding(rid, "advertised|unknown", "capabilities advertised without a handler entry in the reference table: %s" % unknown_caps, start.where)
 
 
+def r148(ctx, fx):
+    rid = ctx.rule("R14.8", "handlers do not force-unwrap what the client may legitimately leave empty: no unwrap/expect on an Option/Result computed from the "
+                   "request's `params` in a RequestHandler/NotificationHandler::handle (URI conversions are R14.3's subject)")
+    n = 0
+    for f in sorted(fx.all_fns("mos"), key=lambda f: f.path):
+        if not f.d.get("hir") or "::tests::" in f.path or not f.path.endswith("::handle"):
+            continue
+        if f.d.get("impl_trait") not in ("mos::lsp::traits::RequestHandler", "mos::lsp::traits::NotificationHandler"):
+            continue
+        n += 1
+        k0 = 0
+        for x in lib.hwalk(f.hir["body"]):
+            if x.get("k") == "mcall" and x.get("name") in ("unwrap", "expect") and \
+                    any(y.get("k") == "path" and lib.hpath(y) == "params" for y in lib.hwalk(x["recv"])):
+                d = repr(lib.hdesc(x["recv"]))
+                if "to_file_path" in d:
+                    continue
+                k0 += 1
+                key = "%s|%s#%d" % (f.path, x["name"], k0)
+                ctx.inst(rid, key)
+                ctx.finding(rid, key, "%s force-unwraps a value taken from the request (%s): a request that leaves it empty — e.g. a didChange without content "
+                            "changes — ends the language server" % ((f.d.get("impl_self") or f.path).rsplit("::", 1)[-1], d[:80]), "%s:%s" % (f.file, x.get("ln")))
+        if k0 == 0:
+            ctx.inst(rid, f.path, nontrivial=False)
+    ctx.floor(rid, 15, "handlers scanned")
+
+
 def run(ctx):
     fx = ctx.facts
     cg = lib.CallGraph(fx)
     r141(ctx, fx, cg)
+    r148(ctx, fx)
     r146(ctx, fx)
     r142(ctx, fx)
     r143(ctx, fx)
